@@ -61,9 +61,20 @@ func c19FlagScenarios(t *testing.T, out *vu.Out, n int) []c19Scenario {
 		t.Fatal(err)
 	}
 	root := filepath.Clean(filepath.Join(wd, "..", "..", "..", "..")) // internal/mode/static/telemetry -> module root
-	overlay := filepath.Join(filepath.Dir(filepath.Dir(out.Dir)), "overlay.json")
-	if p := os.Getenv("VERIF_C19_OVERLAY"); p != "" {
-		overlay = p
+	// a private overlay for the sub-process: only this property's cmd/gateway harness file and verifutil, mapped into the
+	// tree under test (the shared .work/overlay.json may be rewritten by a concurrent check of another tree)
+	verif := filepath.Dir(filepath.Dir(filepath.Dir(out.Dir))) // <verif>/.work/C19/cases_<tier>
+	if p := os.Getenv("VERIF_C19_HOME"); p != "" {
+		verif = p
+	}
+	ov := map[string]map[string]string{"Replace": {
+		filepath.Join(root, "cmd", "gateway", "zz_verif_c19_test.go"): filepath.Join(verif, "harness", "pkg", "cmd", "gateway", "zz_verif_c19_test.go"),
+		filepath.Join(root, "internal", "verifutil", "util.go"):       filepath.Join(verif, "harness", "verifutil", "util.go"),
+	}}
+	ovb, _ := json.Marshal(ov)
+	overlay := filepath.Join(t.TempDir(), "overlay.json")
+	if err := os.WriteFile(overlay, ovb, 0o644); err != nil {
+		t.Fatal(err)
 	}
 	res := filepath.Join(t.TempDir(), "flags.json")
 	cmd := exec.Command("go", "test", "-overlay", overlay, "-tags", "verif", "-vet=off", "-count=1",
@@ -251,7 +262,7 @@ type c19Getters struct {
 	cfg *dataplane.Configuration
 }
 
-func (x c19Getters) GetLatestGraph() *graph.Graph                      { return x.g }
+func (x c19Getters) GetLatestGraph() *graph.Graph                     { return x.g }
 func (x c19Getters) GetLatestConfiguration() *dataplane.Configuration { return x.cfg }
 
 func c19NN(kind string, i int) types.NamespacedName {
